@@ -755,7 +755,8 @@ def files_strategy(tier):
         n = draw(st.sampled_from([1, 2, 3, 5, 14]))
         types = draw(st.lists(st.sampled_from(specs.TYPES), max_size=min(n, 3), unique=True))
         blocks = [{"spec": draw(specs.SPEC[t]("quick")), "comment": draw(comments), "cdate": draw(dates31), "mdate": draw(dates31)} for t in types]
-        rel = draw(st.sampled_from(["copy", "metadata-only", "slot-count", "version", "block-changed", "block-removed", "block-added", "block-order", "block-order"]))
+        rel = draw(st.sampled_from(["copy", "metadata-only", "slot-count", "version", "block-changed", "block-removed", "block-added", "block-order", "block-order",
+                                    "in-session-remove", "in-session-add", "in-session-replace"]))
         return {"N": n, "version": draw(st.sampled_from([1, 1, 2, 7])), "blocks": blocks, "rel": rel, "pick": draw(st.integers(0, 10 ** 6)),
                 "comment2": draw(comments), "date2": draw(dates31)}
 
@@ -821,6 +822,57 @@ def run_files(ctx, case):
             t = unused[pick % len(unused)]
             b_blocks.append({"spec": _minimal(t), "comment": "", "cdate": 0, "mdate": 0})
             expect = False
+    if rel.startswith("in-session-"):
+        # two identical files; one of them is edited INSIDE an open write context in which the two had already been compared once:
+        # the comparison made right after the edit, in the same context, sees the edit
+        from basictdf.tdfBlock import BlockType
+
+        d = env.fresh_dir()
+        try:
+            pa, pb = os.path.join(d, "a.tdf"), os.path.join(d, "b.tdf")
+            img = _image(na, va, a_blocks)
+            open(pa, "wb").write(img)
+            open(pb, "wb").write(img)
+            present = [b["spec"]["t"] for b in a_blocks]
+            absent = [t for t in specs.TYPES if t not in present]
+            kind = rel.split("-")[-1]
+            if (kind in ("remove", "replace") and not present) or (kind == "add" and len(present) >= na):
+                ctx.case(case, False, labels=[f"files:{rel}:not-applicable"])
+                return
+
+            def session():
+                with Tdf(pa).allow_write() as ta:
+                    with Tdf(pb) as tb:
+                        first = (bool(ta == tb), bool(tb == ta))
+                        _ = ta.blocks
+                        if kind == "remove":
+                            ta.remove_block(BlockType(reftdf.TYPE_CODE[present[pick % len(present)]]))
+                        elif kind == "add":
+                            ta.add_block(specs.build(_minimal(absent[pick % len(absent)])))
+                        else:
+                            t_ = present[pick % len(present)]
+                            pair = None
+                            for r in ("append-item", "scalar:frequency", "scalar:startTime", "label"):
+                                if r in relations_for(t_):
+                                    pair = DIFF_RELS[r](_clamp_frames(copy.deepcopy(a_blocks[present.index(t_)]["spec"])), pick)
+                                    if pair:
+                                        break
+                            if not pair:
+                                return first, None
+                            ta.replace_block(specs.build(pair[1]))
+                        return first, (bool(ta == tb), bool(tb == ta))
+            ok, res = ctx.must(session, f"files/{rel}/session", f"comparing two files inside an open write context ({rel})")
+            if ok:
+                first, second = res
+                if first != (True, True):
+                    ctx.fail(f"files/{rel}/identical-files-unequal", f"two byte-identical files compare unequal inside a context ({first})")
+                if second is not None and second != (False, False):
+                    ctx.fail(f"files/{rel}/reported-equal", f"two files compared inside one open write context: after {kind} on one of them they still compare EQUAL "
+                                                            f"(a==b: {second[0]}, b==a: {second[1]})")
+        finally:
+            env.rmdir(d)
+        ctx.case(case, True, labels=[f"files:{rel}", f"blocks={len(a_blocks)}"])
+        return
     d = env.fresh_dir()
     try:
         pa, pb = os.path.join(d, "a.tdf"), os.path.join(d, "b.tdf")
